@@ -573,6 +573,12 @@ def check_C19(ctx):
         recv.rule_nb_pair(ctx, cfg, F)
     for cfg, F in ctx.configs(["K3"]):
         recv.rule_inproc_classes(ctx, cfg, F)
+    # receiver sets: each backend hands out every pending event of a ready member (a bounded or early-ending drain on one backend is a divergence)
+    for cfg, F in ctx.configs(["K1"]):
+        rset.rule_set_unix(ctx, cfg, F)
+        ctx.rule("SET-DRAIN").floor("member_reads[%s]" % cfg, 1, cfg)
+    for cfg, F in ctx.configs(["K3"]):
+        rset.rule_set_inproc(ctx, cfg, F)
     ctx.assume("the macOS and Windows backends cannot be type-checked on this host and are out of scope")
 
 
